@@ -3,3 +3,4 @@ import SuitVerif.Cbor
 import SuitVerif.CborProofs
 import SuitVerif.Hash.Sha2
 import SuitVerif.Hash.Keccak
+import SuitVerif.Cache
